@@ -13,7 +13,7 @@ import check
 drv, prop = sys.argv[1], sys.argv[2]
 tier = sys.argv[3] if len(sys.argv) > 3 else "quick"
 m = importlib.import_module("rtc." + drv)
-r = m.run(prop, tier, 0, 16)
+r = m.run(prop, tier, int(os.environ.get("VERIF_SEED", "0")), 16)
 known = json.load(open(os.path.join(HERE, "known_findings.json")))
 groups = collections.OrderedDict()
 for f in r.failures:
